@@ -90,7 +90,7 @@ def run(ctx: Ctx, tier: str) -> Result:
         else:
             res.fail(Finding("C14.A", start.qname, call, start.loc(call),
                              "effect in Deep.start not guarded by the started test: a repeated start repeats it"))
-    res.floor("calls in Deep.start", ncalls, 6)
+    res.floor("calls in Deep.start", ncalls, 4)
 
     # ---------------- B / C
     sc = settrace_calls(ctx)
